@@ -191,6 +191,12 @@ func c12Run(rc *simrt.RunCtx) {
 			np.s2c.mu.Unlock()
 		}
 		rc.Fault("stall-at-close")
+		// let the stall begin a little before Close, so that Close can land
+		// while a (re)transmission is blocked inside the send callback
+		if lead := rc.Pick(4, "wl.stall-lead"); lead > 0 {
+			time.Sleep(time.Duration(lead) * tk.resend)
+			tClose = rc.Now()
+		}
 	}
 
 	// ---- Close, concurrently and repeatedly ------------------------------
